@@ -48,7 +48,7 @@ ArgOutcome(kind, src) ==
   IF tc \in {"str", "bool"} \/ sc \in {"str", "bool"} THEN (IF tc = sc THEN "conv" ELSE "unspecified")
   ELSE "conv"
 
-CallForms == {"func", "method", "three", "func2", "funcerr",   \* funcerr: (value, error) with a non-nil error: the first result counts      \* func2: a function with two results (the first counts)
+CallForms == {"func", "method", "three", "func2", "funcerr", "funcrev",   \* funcrev: the converted parameter stands BEHIND a string parameter and before an integer one   \* funcerr: (value, error) with a non-nil error: the first result counts      \* func2: a function with two results (the first counts)
               "vthenp"}     \* a value-receiver method called on a value-injected object and then on a pointer-injected
                             \* object of the same type (whose method set also holds pointer-receiver methods)
 
@@ -69,10 +69,16 @@ RereadCells == {[what |-> "reread", path |-> p, kind |-> k, src |-> how, outcome
                   p \in {"field", "field2", "field2v", "mapstr", "slice", "array", "pmapstr", "pslice"}, k \in {"int64", "int8", "float64", "string"},
                   how \in {"value", "pointer", "inrule"}}
 
+\* a field access goes by the field's NAME on the object's own type: two struct types that print alike (same package
+\* and type name, e.g. declared inside two functions) with the same field names at different positions - injected one
+\* after the other in one process - each read and written through their own layout
+TwinCells == {[what |-> "twin", path |-> p, kind |-> k, src |-> "", outcome |-> "conv"] :
+                p \in {"read", "store"}, k \in {"int64", "string"}}
+
 \* sanity: every same-kind store is promised
 Sane == \A c \in StoreCells : (ClassOf(c.kind) = ClassOf(c.src)) => c.outcome = "conv"
 ASSUME Sane
-ASSUME ndJsonSerialize("gen.ndjson", SetToSeq(StoreCells \cup ReadCells \cup CallCells \cup ShadowCells \cup RereadCells))
+ASSUME ndJsonSerialize("gen.ndjson", SetToSeq(StoreCells \cup ReadCells \cup CallCells \cup ShadowCells \cup RereadCells \cup TwinCells))
 VARIABLE dummy
 GSpec == dummy = 0 /\ [][UNCHANGED dummy]_dummy
 =============================================================================
